@@ -311,6 +311,8 @@ def cases(tier):
                         if quick and not (w == "spring" and (entry == "from_series" or meter == "daily00")) \
                                 and not (w == "autumn" and entry == "from_series" and meter == "daily00"):
                             continue
+                        if not quick and z != "America/Chicago" and entry == "frame":
+                            continue  # the frame entry differs from from_series only by the trimming; one DST zone is enough
                         add({"family": "daily", "cls": "baseline", "entry": entry, "feed": feed, "feed_zone": "same",
                              "meter": meter, "zone": z, "window": w, "dst_pos": 2}, 1)
                 # feed zones: representation / start instant only -> 6-hour lattice
@@ -369,8 +371,8 @@ def replay(rep):
     vs = []
     for k in range(2):
         r = run_case(rep["case"])
-        vs = [v for v in r.get("violations", []) if v["clause"] == rep["clause"]]
-        print(f"run {k}: behaviour={r.get('behaviour')} violations={len(r.get('violations', []))} of clause {rep['clause']}: {len(vs)}")
+        vs = [v for v in r.get("violations", []) if v["clause"] == rep["clause"] and v["key"] == rep.get("key", v["key"])]
+        print(f"run {k}: behaviour={r.get('behaviour')} violations={len(r.get('violations', []))}, of clause {rep['clause']} with the recorded key: {len(vs)}")
         for v in vs[:3]:
             print("  ", v["key"], v["detail"])
     return 1 if vs else 0
